@@ -22,7 +22,7 @@ VECTOR = ["model: clone_* (erase original) = erase (real clone)",
           "monitor c18_keepstate / c18_default_pristine on the real clone",
           "monitor c18_default_resubmittable on the real clone (Validate and Submit accept)",
           "monitor c18_no_sharing: label sets of clone and original disjoint",
-          "Go-side monitor (1 address ranges overlap, 2 mutating the clone changed the original, 3 mutating the original changed the clone, 4 panic, 5 Submit of the clone changed the original, 6 clone holds a value outside the modelled domain)",
+          "Go-side monitor (1 address ranges overlap, 2 mutating the clone changed the original, 3 mutating the original changed the clone, 4 panic, 5 Submit of the clone changed the original, 6 clone holds a value outside the modelled domain, 7 the clone depends on the state of the Context)",
           "model self-check: labelled model erases to the value model and allocates fresh labels"]
 
 
@@ -81,7 +81,9 @@ def run(ctx):
              "filled buffer / non-empty with spare capacity / exact; attempts slices exact, with spare capacity or as appended), crafted into the execution states fresh / submitted / running / completed / failed (ids, states, times, attempts with "
              "responses and wrapped errors, reason, submit time, plan ids, registry pointers, etags); every 5th case made irregular (1-3 of 20 kinds, the first one cycling through all kinds: nil / empty "
              "slices, nil elements, empty sequence, empty attempts, blank names, short timeout, unknown plugin, rejected / nil request); the object "
-             "cloned is the plan or a block / sequence / checks group / action of it; each case = one original x the 4 option sets; evaluations = "
+             "cloned is the plan or a block / sequence / checks group / action of it; each case = one original x the 4 option sets; the observed clone of each option set is made under a Context of a kind that rotates "
+             "through live / already cancelled / deadline passed / cancelled from another goroutine during the call, and for every option set the clones "
+             "under all four kinds of Context are compared with each other; evaluations = "
              "(original, option set) observations; distinct = distinct case terms by hash; non-trivial = the original has more than 3 "
              "pointer/slice/map nodes",
         samples=[dict(id=c["id"], kind=c["kind"], input=c["input"], dist=c["dist"], observed=c["observed"]) for c in cases[:3]],
@@ -90,6 +92,7 @@ def run(ctx):
         distribution=dict(kind=fw.histogram(c["dist"]["kind"] for c in cases),
                           mode=fw.histogram(c["dist"]["mode"] for c in cases),
                           stream=fw.histogram(c["dist"]["stream"] for c in cases),
+                          context=fw.histogram("%s/%s" % (c["dist"]["kind"], o["context"]) for c, o in obs),
                           meta_shape=fw.histogram(c["dist"]["meta_shape"] for c in cases if c["dist"]["kind"] == "plan"),
                           irregular=fw.histogram(x for c in cases for x in (c["dist"]["irregular"] or [])),
                           nodes=fw.histogram(min(c["dist"]["nodes"] // 10 * 10, 200) for c in cases),
